@@ -24,7 +24,8 @@ PROPERTY = 'C13'
 LEVEL = 'exploration'
 LEVEL_TEXT = ('Exploration with an exhaustive sub-space: every request path made of <= 3 (quick) / 4 (thorough) tokens '
               'from {names inside and outside the root, "/", ".", "..", "%2e", "%2e%2e", "%2f", "%00", "//", "?"} '
-              'plus random paths up to 12 tokens, each sent to the real web-server plugin; the response is compared '
+              'plus random paths up to 12 tokens, plus generated query strings made of path-like material (dot-segments, '
+              'the root\'s own name) appended to confined and escaping paths, each sent to the real web-server plugin; the response is compared '
               'with the file system and the audit hook watches every open() for decoy files.')
 LEVEL_NOTE = 'Trusted: posixpath.normpath as dot-segment resolver; unique file contents identify which file was served.'
 TECHNIQUE = 'runtime monitoring: client transcript vs file-system ground truth + sys.addaudithook("open") decoy watch'
@@ -220,7 +221,8 @@ def run_case(case: Dict[str, Any]) -> Dict[str, Any]:
             key = '%s|%s' % (what, cl)
             viol.setdefault(key, {'key': key, 'detail': {'path': path, 'diff': d, 'status': code}})
         if case.get('queries') and code in ('200', '404'):
-            for q in (b'?', b'?x=1', b'?f=/../secret.txt', b'?a=b?c=d'):
+            qrng = random.Random('c13q:%s:%s' % (case['seed'], pt))
+            for q in [b'?', b'?x=1', b'?f=/../secret.txt', b'?a=b?c=d'] + [gen_query(qrng) for _ in range(int(case['queries']) - 1)]:
                 r2 = fetch(path + q)
                 o2 = outcome(path + q, r2)
                 obs['query_variants'] = obs.get('query_variants', 0) + 1
@@ -237,25 +239,37 @@ def run_case(case: Dict[str, Any]) -> Dict[str, Any]:
             'obs': obs, 'sets': sets, 'sample': sample or [{'path': case['paths'][0]}]}
 
 
+_QTOKS = ['..', '..', '..', 'public', 'public', 'public-secret', '.', 'sub', 'a.txt', 'index.html', 'secret.txt', 'x.txt',
+          '/', '//', '%2e%2e', '%2f', 'k=v', '&', '?', 'nope']
+
+
+def gen_query(rng: random.Random) -> bytes:
+    """'?' + a query made of path-like material (dot-segments, the root's own name, separators): the query is not part
+    of the path, so none of it may influence which file is served or whether the request is confined."""
+    combo = [rng.choice(_QTOKS) for _ in range(rng.randint(1, 6))]
+    lead = rng.choice(['/', '/', '', 'next=', 'next=/'])
+    return ('?' + lead + ''.join(_join(combo))).encode('latin-1')
+
+
 def cases(tier: str, seed: int):
     depth = 3 if tier == 'quick' else 4
     block: List[str] = []
     i = 0
     toks = TOKENS
 
-    def emit(paths: List[str], queries: bool = False) -> Dict[str, Any]:
+    def emit(paths: List[str], queries: int = 0) -> Dict[str, Any]:
         nonlocal i
         i += 1
         return {'seed': seed, 'i': i, 'paths': paths, 'queries': queries}
     # plain existing files (non-vacuity) with query variants
     yield emit(['/a.txt', '/index.html', '/big.bin', '/sub/c.txt', '/sub/deep/d.txt', '/sub/secret.txt', '/file.with.dots',
-                '/..hidden', '/%41.txt', '/public/x.txt', '/nope', '/', '/sub', '/sub/'], queries=True)
+                '/..hidden', '/%41.txt', '/public/x.txt', '/nope', '/', '/sub', '/sub/'], queries=40)
     yield emit(['/../secret.txt', '/../a.txt', '/../public-secret/x.txt', '/sub/../../secret.txt', '/./a.txt', '/sub/../a.txt',
                 '/../public/a.txt', '/%2e%2e/secret.txt', '/..%2fsecret.txt', '/../sub/c.txt', '/../other/sub/c.txt',
-                '//a.txt', '/sub//c.txt', '/../public-secret/a.txt'], queries=True)
+                '//a.txt', '/sub//c.txt', '/../public-secret/a.txt'], queries=40)
     yield emit(['/sub/../a.txt', '/./a.txt', '/sub/./c.txt', '/sub/deep/../c.txt', '/public/../a.txt', '/sub/../sub/../index.html',
                 '/sub/deep/../../big.bin', '/public/./x.txt', '/sub/deep/./d.txt', '/public/../public/x.txt', '/a.txt?../x',
-                '/sub/../..hidden', '/sub/../%41.txt', '/public/../file.with.dots'], queries=True)
+                '/sub/../..hidden', '/sub/../%41.txt', '/public/../file.with.dots'], queries=40)
     for n in range(1, depth + 1):
         for combo in itertools.product(toks, repeat=n):
             p = '/' + ''.join(t if t in ('/', '//') else t for t in _join(combo))
@@ -272,7 +286,7 @@ def cases(tier: str, seed: int):
             k = rng.randint(4, 12)
             combo = [rng.choice(toks) for _ in range(k)]
             paths.append('/' + ''.join(_join(combo)))
-        yield emit(paths, queries=rng.random() < 0.2)
+        yield emit(paths, queries=4 if rng.random() < 0.2 else 0)
 
 
 def _join(combo: Any) -> List[str]:
@@ -293,7 +307,7 @@ def _join(combo: Any) -> List[str]:
 
 def floors(tier: str) -> Dict[str, int]:
     return {'paths': 3000, 'status:200': 40, 'status:404': 1000, 'nontrivial_paths': 1000, 'open_events': 1000,
-            'query_variants': 50, 'distinct:path_classes': 10}
+            'query_variants': 1500, 'distinct:path_classes': 10}
 
 
 if __name__ == '__main__':
